@@ -16,7 +16,7 @@ EXTENDS Naturals, Sequences, FiniteSets, TLC, Json
 ParseOps == {"parse"}
 \* ops that are allowed to change exactly one component, to the requested value
 StepFailing(pre, a, post) ==
-    IF a.op \in {"parse", "combine", "domedit", "serialize", "newparser", "mqedit", "valueedit", "profileaddremove", "tokenizer"} THEN
+    IF a.op \in {"parse", "combine", "domedit", "serialize", "newparser", "mqedit", "valueedit", "profileaddremove", "profileswitch", "tokenizer"} THEN
         (IF post.mode # pre.mode THEN "ErrorModeRestored"
          ELSE IF post.prefs # pre.prefs THEN "PreferencesRestored"
          ELSE IF post.profiles # pre.profiles THEN "ProfilesRestored"
